@@ -1,6 +1,7 @@
 /-
   Verilog engine — WiresWF, part 3: the decidable predicate `wiresWF`, `reader_wiresWF` for any text, non-vacuity, and the
-  witness `unnamed_port_on_declared` (a declared module may get an unnamed port).
+  witnesses `positional_too_many_rejected` (a positional map longer than the port list of a DECLARED module: rejected after the
+  repair docs/fixes/verilog_positional_too_many.diff) and `positional_undeclared_creates_ports`.
 -/
 import Spydr.Verilog.WFWiresB
 set_option maxHeartbeats 1600000
@@ -38,31 +39,42 @@ theorem exNet_wiresWF : ∃ text s, Parse.readV text = .ok s ∧ wiresWF s = tru
   obtain ⟨text, _, s, _, _, _, h, _⟩ := exNet_roundtrip
   exact ⟨text, s, h, reader_wiresWF text s h⟩
 
-/-- "every port of a module the file declares is named" is NOT a property of accepted designs: a positional port map with
-    more expressions than the module has ports silently adds an UNNAMED port to the declared module (model and
-    `connect_implicitly_mapped_ports` alike; confirmed on /repo) -/
+/-- A positional port map with more expressions than a DECLARED module has ports.  The unrepaired reader silently added an
+    UNNAMED port to the declared module (finding `sdn.parse.accepts.positional-map-longer-than-declared-port-list`,
+    docs/fixes/verilog_positional_too_many.diff); the repaired reader — and the model — reject the text. -/
 def exUnnamed : List Module :=
   [⟨"M", false, [], [], [⟨"a", none, none, none⟩], [.portDecl .inp none none "a" []]⟩,
    ⟨"top", false, [], [], [⟨"x", none, none, none⟩, ⟨"y", none, none, none⟩],
      [.portDecl .inp none none "x" [], .portDecl .inp none none "y" [],
       .inst "M" "u0" [] [] false [(none, .atom (.id "x")), (none, .atom (.id "y"))]]⟩]
 
-theorem unnamed_port_on_declared :
-    ∃ s D, elabDesign exUnnamed = .ok s ∧ D ∈ s.defs ∧ D.name = "M" ∧ D.lib = some "work" ∧ ∃ P ∈ D.ports, P.name = none := by
+theorem positional_too_many_rejected : ∃ e, elabDesign exUnnamed = .error e := by
   cases h : elabDesign exUnnamed with
+  | error e => exact ⟨e, rfl⟩
+  | ok s =>
+    exfalso
+    have : (match elabDesign exUnnamed with | .ok _ => false | .error _ => true) = true := by decide
+    rw [h] at this; cases this
+
+/-- the same map on a module the file never declares still creates the (unnamed) ports -/
+def exUnnamedBB : List Module :=
+  [⟨"top", false, [], [], [⟨"x", none, none, none⟩, ⟨"y", none, none, none⟩],
+     [.portDecl .inp none none "x" [], .portDecl .inp none none "y" [],
+      .inst "M" "u0" [] [] false [(none, .atom (.id "x")), (none, .atom (.id "y"))]]⟩]
+
+theorem positional_undeclared_creates_ports :
+    ∃ s D, elabDesign exUnnamedBB = .ok s ∧ D ∈ s.defs ∧ D.name = "M" ∧ D.primitive = true ∧ D.ports.map (·.name) = [none, none] := by
+  cases h : elabDesign exUnnamedBB with
   | error e =>
     exfalso
-    have : (match elabDesign exUnnamed with | .ok _ => true | .error _ => false) = true := by decide
+    have : (match elabDesign exUnnamedBB with | .ok _ => true | .error _ => false) = true := by decide
     rw [h] at this; cases this
   | ok s =>
-    have hk : (match elabDesign exUnnamed with
-      | .ok s => s.defs.any (fun D => D.name == "M" && D.lib == some "work" && D.ports.any (fun P => P.name.isNone))
+    have hk : (match elabDesign exUnnamedBB with
+      | .ok s => s.defs.any (fun D => D.name == "M" && D.primitive && D.ports.map (·.name) == [none, none])
       | .error _ => false) = true := by decide
     rw [h] at hk
     simp only [List.any_eq_true, Bool.and_eq_true, beq_iff_eq] at hk
-    obtain ⟨D, hD, ⟨h1, h2⟩, P, hP, h3⟩ := hk
-    refine ⟨s, D, rfl, hD, h1, h2, P, hP, ?_⟩
-    cases hp : P.name with
-    | none => rfl
-    | some v => rw [hp] at h3; cases h3
+    obtain ⟨D, hD, ⟨h1, h2⟩, h3⟩ := hk
+    exact ⟨s, D, rfl, hD, h1, h2, h3⟩
 end Spydr.Verilog.Elab
